@@ -331,11 +331,12 @@ COMMON = {"new", "from", "into", "fmt", "next", "next_back", "clone", "eq", "ne"
 
 def crate_index(api):
     """name -> file for every `fn` that is defined exactly once in the crate (unix build, tests removed)"""
-    root = "/repo/src"
+    repo = os.environ.get("CHRONO_REPO", "/repo")
+    root = repo + "/src"
     srcs, where = {}, {}
     for dp, _, fns in os.walk(root):
         for fn in sorted(fns):
-            rel = os.path.relpath(os.path.join(dp, fn), "/repo")
+            rel = os.path.relpath(os.path.join(dp, fn), repo)
             if not fn.endswith(".rs") or "windows" in rel or "wasm" in rel or "win_bindings" in rel or rel.endswith("tests.rs"):
                 continue
             try:
